@@ -48,6 +48,7 @@ type Contract struct {
 	File        string
 	Line        int
 	Role        string
+	IfaceDecl   bool
 }
 
 type Pred struct {
@@ -166,7 +167,7 @@ func (cs *ContractSet) LoadContractFile(path, pkg string) error {
 		}
 		lines = append(lines, rawLine{t, n})
 	}
-	keywords := []string{"func ", "pred ", "ghost ", "uf ", "axiom ", "invariant ", "fieldrange ", "requires", "ensures", "modifies", "decreases", "loop ", "assert", "ghostset", "refines", "trusted", "opaque", "assumption ", "fieldproto ", "role ", "allocates"}
+	keywords := []string{"func ", "pred ", "ghost ", "uf ", "axiom ", "invariant ", "fieldrange ", "requires", "ensures", "modifies", "decreases", "loop ", "assert", "ghostset", "refines", "trusted", "opaque", "assumption ", "fieldproto ", "role ", "allocates", "interface"}
 	isKw := func(s string) bool {
 		s = strings.TrimSpace(s)
 		for _, k := range keywords {
@@ -442,6 +443,8 @@ func (cs *ContractSet) LoadContractFile(path, pkg string) error {
 				cur.Opaque = true
 			case strings.HasPrefix(t, "allocates"):
 				cur.Allocates = true
+			case strings.HasPrefix(t, "interface"):
+				cur.IfaceDecl = true
 			case strings.HasPrefix(t, "role "):
 				cur.Role = strings.TrimSpace(t[len("role "):])
 			default:
